@@ -77,9 +77,12 @@ def load_fragments():
     d = os.path.join(VERIF, "harness", "manifest.d")
     if not os.path.isdir(d):
         return
+    ready = set(open(os.path.join(VERIF, "harness", "claimed.txt")).read().split())
     for f in sorted(os.listdir(d)):
         if f.endswith(".json"):
             pid = f[:-5]
+            if pid not in ready:
+                continue   # fragment written by a builder whose check is not integrated yet
             j = json.load(open(os.path.join(d, f)))
             if "not_applicable" in j:
                 NA[pid] = j["not_applicable"]
